@@ -53,7 +53,8 @@ TreeOf(sh, i) == {i} \cup UNION { TreeOf(sh, sh.inc[i][k]) : k \in 1..Len(sh.inc
 
 (* ---- pools: small, so that files share names -------------------------------------------------- *)
 WAccounts == {1, 3, 7, 9, 11, 12, 14,   \* assets:bank expenses:food "misc:my wallet" assets:кошелёк misc:fun😀:cash Expenses:Rent "misc:my wallet:sub"
-              27, 33, 36, 54, 79}      \* generated: a:a  "a:a b" (a:a is a prefix of it)  A:a (a:a in another case)  😀:a  "a b:a 1"
+              27,                      \* wallet:fees
+              28, 34, 37, 55, 80}      \* generated: a:a  "a:a b" (a:a is a prefix of it)  A:a (a:a in another case)  😀:a  "a b:a 1"
 WComms    == {0, 1, 4, 7, 8}        \* none  $  USD  "A B"  "дуб 😀"
 WPayees   == {1, 2, 3, 7}           \* grocery store | rent | café 😀 bar | a payee of 74 characters
 WTags     == {1, 2, 5, 6, 8, 9}     \* type:food  project:x y  flag:  who:me😀  place:food  area: north
